@@ -678,9 +678,10 @@ func filterLinenumbers(in *Value, param *Value) (*Value, *Error) {
 }
 
 func filterLjust(in *Value, param *Value) (*Value, *Error) {
-	times := param.Integer() - in.Len()
-	if times < 0 {
-		times = 0
+	times := 0
+	if width, length := param.Integer(), in.Len(); width > length {
+		// (comparing first: the difference overflows for a huge negative width)
+		times = width - length
 	}
 	if times > maxCharPadding {
 		return nil, &Error{
